@@ -19,6 +19,8 @@ import (
 	"verifharness/mon"
 
 	"github.com/google/go-tdx-guest/rtmr"
+	_ "golang.org/x/crypto/blake2b" // make the other 384-bit hashes Available(), as they may be in a caller's binary
+	_ "golang.org/x/crypto/sha3"
 )
 
 func init() {
@@ -411,7 +413,14 @@ func c17(x *mon.Ctx) {
 			singles = append(singles, rtmrReq{Kind: "digest", Index: i, Digest: dg(n, 7)})
 		}
 		singles = append(singles, rtmrReq{Kind: "digest", Index: i, Digest: nil})
-		for _, hsh := range []crypto.Hash{0, crypto.SHA256, crypto.SHA384, crypto.SHA512, crypto.SHA3_384, crypto.SHA512_256} {
+		hashes := []crypto.Hash{}
+		for h := crypto.Hash(0); h < 32; h++ { // every identifier the crypto package knows, incl. the other 48-byte digests (SHA3-384, BLAKE2b-384)
+			hashes = append(hashes, h)
+		}
+		if i != 0 && i != 3 {
+			hashes = []crypto.Hash{0, crypto.SHA256, crypto.SHA384, crypto.SHA512, crypto.SHA3_384, crypto.BLAKE2b_384}
+		}
+		for _, hsh := range hashes {
 			for _, l := range [][]byte{nil, {}, {0x41}, dg(4096, 3)} {
 				singles = append(singles, rtmrReq{Kind: "log", Index: i, Hash: uint(hsh), Log: l})
 			}
